@@ -271,6 +271,11 @@ class Executor:
                 return v.items[place[2]]
             if isinstance(v, Closure):
                 return v.captures[place[2]]
+            if isinstance(v, Agg):  # MIR prints aggregate fields in declaration (= index) order
+                vals = list(v.fields.values())
+                if place[2] >= len(vals):
+                    raise MirError("symex: field .%d of aggregate %s" % (place[2], v.name))
+                return vals[place[2]]
             if isinstance(v, Obj):
                 return v.field(self, place[2], place[3])
             if isinstance(v, Opt) and place[2] == 0:  # ((x as Some).0: T) arrives as field of the downcast
@@ -303,8 +308,16 @@ class Executor:
         m = re.match(r"^const \(\)$", op)
         if m:
             return Tup([])
+        if re.match(r"^const .*::promoted\[\d+\]$", op):
+            return Obj("Promoted")
+        m = re.match(r'^const b?"(.*)"$', op)
+        if m:
+            return Obj("Lit", s=m.group(1))
         if re.fullmatch(r"[A-Za-z_][\w:<>', ]*", op) and "::" in op:
             return FnItem(op)
+        m = re.match(r"^const ([A-Za-z_][\w:<>', ]*)$", op)
+        if m:
+            return Obj("Const", text=m.group(1))
         raise MirError("symex: unsupported operand %r" % op)
 
     def rvalue(self, env, rv, dest_ty):
@@ -314,6 +327,9 @@ class Executor:
         if re.fullmatch(r"[A-Za-z_][\w]*(::[A-Za-z_]\w*)*::[A-Z]\w*", rv) and not rv.startswith("const"):
             return Enum(rv.rsplit("::", 1)[1], [])
         if rv.startswith("copy ") or rv.startswith("move ") or rv.startswith("const "):
+            m = re.match(r"^(copy|move|const) (.*) as .* \((PointerCoercion\(.*\)|PtrToPtr|Transmute)\)$", rv)
+            if m:
+                return self.operand(env, "%s %s" % (m.group(1), m.group(2)))
             m = re.match(r"^(copy|move) (.*) as (\w+) \(IntToInt\)$", rv)
             if m:
                 v = self.operand(env, "%s %s" % (m.group(1), m.group(2)))
@@ -338,6 +354,14 @@ class Executor:
             if isinstance(a, B):
                 return bnot(a)
             return BV(a.w, "(bvnot %s)" % a.t)
+        m = re.match(r"^PtrMetadata\((.*)\)$", rv)
+        if m:
+            v = self.operand(env, m.group(1))
+            while isinstance(v, Ref) and not isinstance(v.target, tuple):
+                v = v.target
+            if isinstance(v, Obj) and hasattr(v, "items"):
+                return bvconst(len(v.items), 64)
+            raise MirError("symex: PtrMetadata of %r" % (v,))
         m = re.match(r"^discriminant\((.*)\)$", rv)
         if m:
             v = self.read(env, parse_place(m.group(1)))
@@ -366,7 +390,9 @@ class Executor:
         m = re.match(r"^(?:std::cmp::)?Reverse::<.*?>\((.*)\)$", rv)
         if m:
             return Enum("Reverse", [self.operand(env, m.group(1))])
-        m = re.match(r"^([A-Za-z_][\w:<>, ]*)::([A-Z]\w*)(\((.*)\))?$", rv)
+        m = re.match(r"^([A-Za-z_][\w:<>, ()&'\[\]]*?)::([A-Z]\w*)(\((.*)\))?$", rv)
+        if m and m.group(1).count("(") != m.group(1).count(")"):
+            m = None
         if m:
             payload = [self.operand(env, x) for x in mir.split_top(m.group(4))] if m.group(4) else []
             return Enum(m.group(2), payload)
@@ -377,6 +403,9 @@ class Executor:
                 k, v = part.split(": ", 1)
                 fields[k.strip()] = self.operand(env, v)
             return Agg(m.group(1), fields)
+        m = re.match(r"^\[(.*)\]$", rv)
+        if m:
+            return Tup([self.operand(env, x) for x in mir.split_top(m.group(1))])
         m = re.match(r"^\((.*)\)$", rv)
         if m and "," in rv:
             return Tup([self.operand(env, x) for x in mir.split_top(m.group(1))])
@@ -387,6 +416,9 @@ class Executor:
             raise MirError("symex: integer cast of %r" % (v,))
         if w == v.w:
             return v
+        k = bv_is_const(v)
+        if k is not None and not signed:
+            return bvconst(k % (1 << w), w)
         if w < v.w:
             return BV(w, "((_ extract %d 0) %s)" % (w - 1, v.t))
         return BV(w, "((_ %s %d) %s)" % ("sign_extend" if signed else "zero_extend", w - v.w, v.t))
@@ -404,6 +436,9 @@ class Executor:
         if not (isinstance(a, BV) and isinstance(b, BV) and a.w == b.w):
             raise MirError("symex: binop %s on %r, %r" % (op, a, b))
         w = a.w
+        ka, kb = bv_is_const(a), bv_is_const(b)
+        if ka is not None and kb is not None and op in ("Gt", "Ge", "Lt", "Le", "Eq", "Ne"):
+            return B({"Gt": ka > kb, "Ge": ka >= kb, "Lt": ka < kb, "Le": ka <= kb, "Eq": ka == kb, "Ne": ka != kb}[op])
         cmpo = {"Gt": "bvugt", "Ge": "bvuge", "Lt": "bvult", "Le": "bvule"}
         if op in cmpo:  # unsigned only: signed integer types are rejected at declaration
             return B("(%s %s %s)" % (cmpo[op], a.t, b.t))
@@ -749,3 +784,354 @@ def model_of(decls, asserts, want, timeout=120):
             v = int(v.split()[1][2:])
         out[m.group(1)] = v
     return out
+
+
+# ---------------------------------------------------------------------------------------------
+# lazy iterator algebra (pull-based, persistent states): adaptors may call closures that fork
+# ---------------------------------------------------------------------------------------------
+
+class It(Obj):
+    """base: pull(ex, path, depth) -> [(value | None, next_state, [conds])]"""
+
+    def __init__(self, kind):
+        Obj.__init__(self, kind)
+
+    def pull(self, ex, path, depth):
+        raise MirError("symex: iterator %s has no pull" % self.kind)
+
+
+class SliceIt(It):
+    def __init__(self, items, pos=0):
+        It.__init__(self, "SliceIt")
+        self.items, self.pos = list(items), pos
+
+    def pull(self, ex, path, depth):
+        if self.pos < len(self.items):
+            return [(self.items[self.pos], SliceIt(self.items, self.pos + 1), [])]
+        return [(None, self, [])]
+
+
+def apply_fn(ex, f, args, path, depth):
+    """call a closure value or a function item -> [(ret, [conds])]"""
+    if isinstance(f, Closure):
+        return ex.call_closure(f, args, path, depth)
+    if isinstance(f, FnItem):
+        class _B:
+            pass
+        b = _B()
+        b.callee, b.args, b.dest, b.idx = f.path, "", None, -1
+        outs = ex.call(None, {}, b, args, path, depth)
+        if outs is None:
+            raise MirError("symex: function item %s diverges" % f.path)
+        return [(o[0], o[1]) for o in outs]
+    raise MirError("symex: cannot call %r" % (f,))
+
+
+def as_iter(v):
+    if isinstance(v, It):
+        return v
+    if isinstance(v, Opt):  # Option is IntoIterator
+        c = v.cond.const()
+        if c is None:
+            raise MirError("symex: symbolic Option used as iterator")
+        return SliceIt([v.val] if c else [])
+    if isinstance(v, Obj) and v.kind == "Vec":
+        return SliceIt(v.items)
+    raise MirError("symex: %r is not iterable" % (v,))
+
+
+class MapIt(It):
+    def __init__(self, inner, f):
+        It.__init__(self, "MapIt")
+        self.inner, self.f = inner, f
+
+    def pull(self, ex, path, depth):
+        out = []
+        for v, st, c in self.inner.pull(ex, path, depth):
+            if v is None:
+                out.append((None, MapIt(st, self.f), c))
+                continue
+            for r, c2 in apply_fn(ex, self.f, [v], path, depth):
+                out.append((r, MapIt(st, self.f), c + c2))
+        return out
+
+
+class FilterIt(It):
+    def __init__(self, inner, f):
+        It.__init__(self, "FilterIt")
+        self.inner, self.f = inner, f
+
+    def pull(self, ex, path, depth, budget=64):
+        if budget <= 0:
+            raise MirError("symex: filter does not terminate")
+        out = []
+        for v, st, c in self.inner.pull(ex, path, depth):
+            if v is None:
+                out.append((None, FilterIt(st, self.f), c))
+                continue
+            for r, c2 in apply_fn(ex, self.f, [Ref(v)], path, depth):
+                if not isinstance(r, B):
+                    raise MirError("symex: filter predicate returned %r" % (r,))
+                k = r.const()
+                rest = FilterIt(st, self.f)
+                if k is not False:
+                    out.append((v, rest, c + c2 + ([] if k else [r.t])))
+                if k is not True:
+                    for v3, st3, c3 in rest.pull(ex, path, depth, budget - 1):
+                        out.append((v3, st3, c + c2 + ([] if k is False else ["(not %s)" % r.t]) + c3))
+        return out
+
+
+class FilterMapIt(It):
+    def __init__(self, inner, f):
+        It.__init__(self, "FilterMapIt")
+        self.inner, self.f = inner, f
+
+    def pull(self, ex, path, depth, budget=64):
+        if budget <= 0:
+            raise MirError("symex: filter_map does not terminate")
+        out = []
+        for v, st, c in self.inner.pull(ex, path, depth):
+            if v is None:
+                out.append((None, FilterMapIt(st, self.f), c))
+                continue
+            for r, c2 in apply_fn(ex, self.f, [v], path, depth):
+                if not isinstance(r, Opt):
+                    raise MirError("symex: filter_map closure returned %r" % (r,))
+                k = r.cond.const()
+                rest = FilterMapIt(st, self.f)
+                if k is not False:
+                    out.append((r.val, rest, c + c2 + ([] if k else [r.cond.t])))
+                if k is not True:
+                    for v3, st3, c3 in rest.pull(ex, path, depth, budget - 1):
+                        out.append((v3, st3, c + c2 + ([] if k is False else ["(not %s)" % r.cond.t]) + c3))
+        return out
+
+
+class FlatMapIt(It):
+    def __init__(self, inner, f, cur=None):
+        It.__init__(self, "FlatMapIt")
+        self.inner, self.f, self.cur = inner, f, cur
+
+    def pull(self, ex, path, depth, budget=64):
+        if budget <= 0:
+            raise MirError("symex: flat_map does not terminate")
+        out = []
+        if self.cur is not None:
+            for v, st, c in self.cur.pull(ex, path, depth):
+                if v is not None:
+                    out.append((v, FlatMapIt(self.inner, self.f, st), c))
+                else:
+                    for v3, st3, c3 in FlatMapIt(self.inner, self.f, None).pull(ex, path, depth, budget - 1):
+                        out.append((v3, st3, c + c3))
+            return out
+        for v, st, c in self.inner.pull(ex, path, depth):
+            if v is None:
+                out.append((None, FlatMapIt(st, self.f, None), c))
+                continue
+            for r, c2 in apply_fn(ex, self.f, [v], path, depth):
+                for v3, st3, c3 in FlatMapIt(st, self.f, as_iter(r)).pull(ex, path, depth, budget - 1):
+                    out.append((v3, st3, c + c2 + c3))
+        return out
+
+
+def drain(ex, it, path, depth, limit=4096):
+    """exhaust an iterator -> [([values], [conds])]"""
+    out, todo = [], [([], it, [])]
+    while todo:
+        vals, st, c = todo.pop()
+        for v, st2, c2 in st.pull(ex, path, depth):
+            if v is None:
+                out.append((vals, c + c2))
+            else:
+                todo.append((vals + [v], st2, c + c2))
+        if len(out) + len(todo) > limit:
+            raise MirError("symex: iterator drains into more than %d alternatives" % limit)
+    return out
+
+
+def _loc_of(b, i=0):
+    m = re.search(r"_\d+", mir.split_top(b.args)[i])
+    return m.group(0) if m else None
+
+
+def _resolve(env, v):
+    if isinstance(v, Ref) and isinstance(v.target, tuple):
+        return env[v.target[1]], v.target[1]
+    if isinstance(v, Ref):
+        return v.target, None
+    return v, None
+
+
+def m_iter_next(ex, env, b, a, p, d):
+    """<.. as Iterator>::next(&mut it) for It objects held in a local"""
+    it, loc = _resolve(env, a[0])
+    if not isinstance(it, It) or loc is None:
+        raise MirError("symex: next() on %r" % (it,))
+    outs = []
+    for v, st, c in it.pull(ex, p, d):
+        def patch(ex2, env2, st=st, loc=loc):
+            env2[loc] = st
+        outs.append((Opt(B(v is not None), v), c, patch))
+    if len(outs) == 1:  # no fork: apply in place
+        outs[0][2](ex, env)
+        return [(outs[0][0], outs[0][1])]
+    return outs
+
+
+ITER_MODELS = [
+    (r"as Iterator>::flat_map::<", lambda ex, env, b, a, p, d: [(FlatMapIt(as_iter(a[0]), a[1]), [])]),
+    (r"as Iterator>::filter_map::<", lambda ex, env, b, a, p, d: [(FilterMapIt(as_iter(a[0]), a[1]), [])]),
+    (r"as Iterator>::filter::<", lambda ex, env, b, a, p, d: [(FilterIt(as_iter(a[0]), a[1]), [])]),
+    (r"as Iterator>::map::<", lambda ex, env, b, a, p, d: [(MapIt(as_iter(a[0]), a[1]), [])]),
+    (r"as IntoIterator>::into_iter$", lambda ex, env, b, a, p, d: [(as_iter(a[0]), [])]),
+    (r"^<(FlatMap|FilterMap|Filter|Map|std::slice::Iter|std::vec::IntoIter)<.*> as Iterator>::next$", m_iter_next),
+]
+
+
+def inline_call(ex, fn2, args, path, depth):
+    """symbolically execute another (non-closure) function -> [(ret, [conds])]"""
+    outs = []
+    ex.run(fn2, list(args), Path(), lambda ret, env, p: outs.append((ret, p.pc)), depth + 1)
+    return outs
+
+
+def m_try_branch(ex, env, b, a, p, d):
+    r = a[0]
+    if isinstance(r, Sum2) and (r.n0, r.n1) == ("Ok", "Err"):
+        return [(Sum2(r.c1, "Continue", "Break", r.p0, [Obj("Residual", err=r.p1[0])]), [])]
+    if isinstance(r, Opt):  # Option as Try: None breaks
+        return [(Sum2(bnot(r.cond), "Continue", "Break", [r.val], [Obj("ResidualNone")]), [])]
+    raise MirError("symex: Try::branch of %r" % (r,))
+
+
+def m_from_residual(ex, env, b, a, p, d):
+    r = a[0]
+    if isinstance(r, Obj) and r.kind == "ResidualNone":
+        return [(Opt(B(False), None), [])]
+    return [(Enum("Err", [r]), [])]
+
+
+TRY_MODELS = [
+    (r"^<std::result::Result<.*> as Try>::branch$", m_try_branch),
+    (r"^<(std::option::)?Option<.*> as Try>::branch$", m_try_branch),
+    (r"as FromResidual<.*>>::from_residual$", m_from_residual),
+]
+
+
+class TakeIt(It):
+    def __init__(self, inner, n):
+        It.__init__(self, "TakeIt")
+        self.inner, self.n = inner, n
+
+    def pull(self, ex, path, depth):
+        if self.n <= 0:
+            return [(None, self, [])]
+        return [(v, TakeIt(st, self.n - 1 if v is not None else 0), c) for v, st, c in self.inner.pull(ex, path, depth)]
+
+
+class ChainIt(It):
+    def __init__(self, a, b):
+        It.__init__(self, "ChainIt")
+        self.a, self.b = a, b
+
+    def pull(self, ex, path, depth):
+        out = []
+        if self.a is None:
+            return [(v, ChainIt(None, st), c) for v, st, c in self.b.pull(ex, path, depth)]
+        for v, st, c in self.a.pull(ex, path, depth):
+            if v is not None:
+                out.append((v, ChainIt(st, self.b), c))
+            else:
+                for v2, st2, c2 in self.b.pull(ex, path, depth):
+                    out.append((v2, ChainIt(None, st2), c + c2))
+        return out
+
+
+def _const_usize(v):
+    if isinstance(v, BV):
+        k = bv_is_const(v)
+        if k is not None:
+            return k
+    raise MirError("symex: adaptor argument is not a constant")
+
+
+def _m_skip(ex, env, b, a, p, d):
+    it, n = as_iter(a[0]), _const_usize(a[1])
+    alts = [(it, [])]
+    for _ in range(n):
+        nxt = []
+        for st, c in alts:
+            for v, st2, c2 in st.pull(ex, p, d):
+                nxt.append((st2, c + c2))
+        alts = nxt
+    if len(alts) != 1:
+        raise MirError("symex: skip over a forking iterator")
+    return [(alts[0][0], alts[0][1])]
+
+
+def _m_rev(ex, env, b, a, p, d):
+    it = as_iter(a[0])
+    if not isinstance(it, SliceIt):
+        raise MirError("symex: rev() of a non-slice iterator")
+    return [(SliceIt(list(reversed(it.items[it.pos:]))), [])]
+
+
+ITER_MODELS = [
+    (r"as Iterator>::take$", lambda ex, env, b, a, p, d: [(TakeIt(as_iter(a[0]), _const_usize(a[1])), [])]),
+    (r"as Iterator>::skip$", _m_skip),
+    (r"as Iterator>::rev$", _m_rev),
+    (r"as Iterator>::chain::<", lambda ex, env, b, a, p, d: [(ChainIt(as_iter(a[0]), as_iter(a[1])), [])]),
+] + ITER_MODELS
+ITER_MODELS[-1] = (r"^<(FlatMap|FilterMap|Filter|Map|Take|Skip|Rev|std::iter::Chain|std::iter::Take|std::iter::Rev|std::slice::Iter|std::vec::IntoIter)<.*> as Iterator>::next$", m_iter_next)
+
+
+def m_int_from(ex, env, b, a, p, d):
+    m = re.match(r"^<(u\d+|usize) as From<(u\d+|usize)>>::from$", b.callee)
+    return [(ex.int_cast(a[0], INT_W[m.group(1)], False), [])]
+
+
+def m_sort_by_key_generic(ex, env, b, a, p, d):
+    """slice::sort[_unstable]_by_key on a modelled Vec / slice: one successor per permutation, constrained to be sorted"""
+    v, loc = _resolve(env, a[0])
+    while isinstance(v, Ref):
+        v, loc = _resolve(env, v)
+    name = _loc_of(b, 0)
+    if not (isinstance(v, Obj) and hasattr(v, "items")):
+        raise MirError("symex: sort_by_key of %r" % (v,))
+    keys = []
+    for t in v.items:
+        outs = ex.call_closure(a[1], [Ref(t)], p, d)
+        if len(outs) != 1 or outs[0][1]:
+            raise MirError("symex: sort key closure forks")
+        k = outs[0][0]
+        if isinstance(k, Enum) and k.variant == "Reverse":
+            raise MirError("symex: Reverse keys not supported by the generic sort model")
+        if not isinstance(k, BV):
+            raise MirError("symex: sort key is not an integer: %r" % (k,))
+        keys.append(k)
+    n = len(v.items)
+    if n <= 1:
+        return [(Tup([]), [])]
+    stable = "sort_unstable" not in b.callee
+    ex.assumptions.add("stub: slice::sort[_unstable]_by_key = the (stable) sort by the closure's key")
+    outs = []
+    for perm in itertools.permutations(range(n)):
+        conds = []
+        for x in range(n - 1):
+            i, j = perm[x], perm[x + 1]
+            conds.append("(%s %s %s)" % ("bvule" if (i < j or not stable) else "bvult", keys[i].t, keys[j].t))
+
+        def patch(ex2, env2, perm=perm, name=name):
+            v2 = env2[name]
+            while isinstance(v2, Ref):
+                v2 = env2[v2.target[1]] if isinstance(v2.target, tuple) else v2.target
+            v2.items = [v2.items[k] for k in perm]
+        outs.append((Tup([]), conds, patch))
+    return outs
+
+
+COMMON_MODELS = [
+    (r"^<(u\d+|usize) as From<(u\d+|usize)>>::from$", m_int_from),
+    (r"^(std|core)::slice::<impl \[.*\]>::sort(_unstable)?_by_key::<", m_sort_by_key_generic),
+]
